@@ -408,6 +408,39 @@ def check_null_skip(rep, mod):
                 'reported as overflowing and the member is rejected' % fn, key='R-HDR-NULL-SKIP|%s' % fn, sample='%s: overflow code only behind buffer != NULL' % fn)
 
 
+def check_count_reset(rep, mod):
+    """state->count is the offset into the string field being read (name, comment); it is what lets a field continue in the next call, so it must be back at 0 when a field is
+    complete - whether or not the caller asked for the field - or the NEXT string field starts at a stale offset"""
+    R = rep.rule('R-HDR-COUNT-RESET', 'string_header_copy: every path to the return of the constant 0 (field complete, terminating NUL consumed) passes a store of 0 to state->count - with or without a '
+                 'destination buffer: the next string field of the header starts at offset 0', floor=1, unit='copy helpers')
+    f = mod.funcs.get('string_header_copy')
+    if f is None:
+        raise AnalysisBroken('string_header_copy not found')
+    R.instance()
+    P = irrules.prov(mod, f)
+    co = field_offsets('struct inflate_state', ['count'])['count']
+    resets = {i.block for i in f.all_insns() if i.op == 'store' and i.ops[0] == '0' and P.atoms(i.ops[1]) == {('param', 0, co)}}
+    if not resets:
+        R.fail(mod.where(f, None), 'string_header_copy never stores 0 to state->count', key='R-HDR-COUNT-RESET|none')
+        return
+    # blocks from which the constant 0 is handed to the return
+    zero_src = set()
+    for r in [i for i in f.all_insns() if i.op == 'ret' and i.ops]:
+        v = r.ops[-1].split()[-1]
+        d = f.defs.get(v)
+        if v == '0':
+            zero_src.add(r.block)
+        elif d is not None and d.op == 'phi':
+            zero_src |= {b for x, b in d.extra['incoming'] if x == '0'}
+    if not zero_src:
+        raise AnalysisBroken('string_header_copy: no return of the constant 0 found')
+    reach = f.reachable_avoiding(f.entry(), resets)
+    bad = sorted(b for b in zero_src if b in reach)
+    R.check(not bad, mod.where(f, None), 'string_header_copy can return 0 (field complete) through block(s) %s without resetting state->count: a field that was skipped (NULL buffer) or completed leaves its length '
+            'behind, and the next name / comment is written at that offset - past the end of the caller\'s buffer if it is shorter' % bad, key='R-HDR-COUNT-RESET|string_header_copy',
+            sample='string_header_copy: state->count = 0 on every path to "return 0"')
+
+
 def check_magic(rep, mod):
     """RFC 1952: a member starts with ID1 = 0x1f, ID2 = 0x8b, CM = 8.  Each of the three comparisons must by itself send a mismatch to the documented
     error return; a mismatch edge from which the parser can still be reached (e.g. `&&` instead of `||`) accepts headers with one wrong byte."""
@@ -633,6 +666,7 @@ def main(tier):
     rep.attempt(check_resume_offset, rep, mod)
     rep.attempt(check_hdr_persist, rep, mod)
     rep.attempt(check_null_skip, rep, mod)
+    rep.attempt(check_count_reset, rep, mod)
     import c17
     rep.attempt(c17.check_mask_range, rep, 'default')      # the CMF byte written by _zlib_header_in_buffer: CINFO for every hist_bits
     import probepure
